@@ -83,3 +83,34 @@ Print Assumptions C39_boundaries_refuted.
 Theorem C39_underflow_limit : u32 (4 - 10) = 4294967290.
 Proof. exact underflow_lemma. Qed.
 Print Assumptions C39_underflow_limit.
+
+(* Length fields (no wrap).  The 24-bit length shares a 32-bit word with the flags byte
+   (uint32(flags)<<24 | length).  For every flags byte and every length below 2^24 the written word decodes
+   back to exactly (flags, length); this covers every control frame header the Framer writes whose
+   payload is shorter than 2^24 bytes (SETTINGS with fewer than 2^21 entries; header-bearing frames whose
+   compressed block is shorter than 2^24 - 10 resp. 2^24 - 4 bytes). *)
+Theorem C39_length_field_exact : forall flags len,
+  0 <= flags < 256 -> 0 <= len < 2^24 ->
+  lenword flags len = flags * 2^24 + len /\ lenword flags len / 2^24 = flags /\ lenword flags len mod 2^24 = len.
+Proof. exact lenword_exact. Qed.
+Print Assumptions C39_length_field_exact.
+
+(* DATA frames: WriteFrame accepts a DATA frame only if its payload has at most 2^24 - 1 bytes
+   (MaxDataLength), and then writes stream id, flags and exactly the payload length followed by the payload;
+   a longer payload is refused and nothing is written. *)
+Theorem C39_data_frame_length_exact : forall sid flags data b,
+  0 <= flags < 256 -> write_frame (FData sid flags data) = (b, None) -> b <> [] ->
+  blen data <= 2^24 - 1 /\ b = be32 sid ++ be32 (flags * 2^24 + blen data) ++ data.
+Proof. exact write_data_frame_exact. Qed.
+Print Assumptions C39_data_frame_length_exact.
+Theorem C39_data_frame_too_long_rejected : forall sid flags len,
+  2^24 - 1 < len -> exists c, data_header sid flags len = inl c.
+Proof. exact data_header_rejects. Qed.
+Print Assumptions C39_data_frame_too_long_rejected.
+
+(* The control-frame writers have no such check (known finding 4): with a payload of 2^24 bytes, or a
+   SETTINGS frame with 2^21 entries, the length runs into the flags byte. *)
+Theorem C39_control_length_wraps :
+  lenword 0 (2^24) / 2^24 = 1 /\ lenword 0 (2^24) mod 2^24 = 0 /\ lenword 0 (u32 (2097152 * 8 + 4)) / 2^24 = 1.
+Proof. exact control_length_wraps. Qed.
+Print Assumptions C39_control_length_wraps.
